@@ -31,7 +31,8 @@ def dt_ns(d) -> int:
     t = pd.Timestamp(d)
     if t.tzinfo is not None:
         t = t.tz_convert(None)
-    return int(t.as_unit("us").value) * 1000 + int(t.nanosecond)
+    # .value always converts to nanoseconds and overflows outside 1677-2262; count microseconds instead
+    return int(t.as_unit("us").asm8.view("i8")) * 1000 + int(t.nanosecond)
 
 
 def to_py(c):
